@@ -101,4 +101,13 @@ PROPS = {
         "assumptions": COMMON_KANI + ["element counts are constants per harness (0, 1, 2): a Vec of symbolic length is an allocation of symbolic size"],
         "outside": ["return types outside the family; element counts above 3; nesting depth above 3"],
     },
+    "C10": {
+        "mirsym": ["schedules", "call_path"],
+        "bounds": {"quick": "symbolic schedule (one decision per atomic step) of threads x calls in {2x2, 3x1, 3x2} unordered and {2x2, 3x1} ordered on one shared pattern; thorough: up to 4x2 / 3x3, cross-checked with cvc5",
+                   "thorough": "threads x calls in {2x2, 2x3, 3x2, 4x2, 3x3}, both call kinds, z3 and cvc5 must agree"},
+        "assumptions": COMMON_MIR + ["sequentially consistent memory (the code uses SeqCst); each atomic operation / lock-protected block is one indivisible step",
+                                     "step programs (operations, operand expressions, the expression used as position) are extracted from the MIR of an accepted call; counters are 16-bit wrapping words in the interleaving model",
+                                     "std::sync::Mutex / spin::Mutex internals are trusted"],
+        "outside": ["hardware memory models weaker than SC", "the randomized real-thread stress half of the quantifier (used only as native replay of a solver counterexample)", "more than 4 threads x 3 calls"],
+    },
 }
